@@ -12,11 +12,16 @@ PINS = {
    'PostfixOpManager::new': ['C08'], 'PostfixOpManager::register': ['C08'], 'PostfixOpManager::get': ['C03', 'C08'], 'PostfixOpManager::exist': ['C02', 'C05', 'C08', 'C10'],
  },
  'function.rs': {'InnerFunctionManager::new': ['C08'], 'InnerFunctionManager::register': ['C08'], 'InnerFunctionManager::get': ['C03', 'C08']},
- 'context.rs': {'Context::new': ['C06'], 'Context::set': ['C06', 'C08'], 'Context::get': ['C06', 'C08'], 'Context::value': ['C06', 'C07', 'C08']},
+ 'context.rs': {'macro:create_context': ['C06', 'C08'], 'Context::new': ['C06'], 'Context::set': ['C06', 'C08'], 'Context::get': ['C06', 'C08'], 'Context::value': ['C06', 'C07', 'C08']},
  'init.rs': {'init': ['C08']},
  'descriptor.rs': {'DescriptorManager::new': ['C18'], 'DescriptorManager::set': ['C18'], 'DescriptorManager::get': ['C18']},
 }
 def fingerprint(f, key):
+    if key.startswith('macro:'):
+        for it in f.items:
+            if it[0] == 'macro_rules' and it[1] == key[6:]:
+                return hashlib.sha256(' '.join(t.s for t in f.toks[it[2]:it[3]]).encode()).hexdigest()[:20]
+        return None
     fn = f.fns.get(key)
     if fn is None: return None
     toks = f.toks[fn.i_fn:fn.i_bc + 1]
